@@ -1,0 +1,49 @@
+//go:build verif
+
+// Contracts for package main (rtcmfilter), checked by /verif/govc (see /verif/DESIGN.md).
+// This file contains only comments; it is compiled only with -tags verif and
+// has no effect on the package.
+
+package main
+
+// Writer stage of the filter.  msgs is everything the channel will deliver; typedcnt(msgs, k)
+// counts the RTCM (typed) messages among the first k.  The stage makes exactly one Write
+// per typed message, in order, with that message's raw bytes, and none for the others:
+// the writer's log grows by the concatenation of the raw bytes of the typed messages.
+//@ func writeRTCMMessages
+//@ requires[C07] ch != nil
+//@ let msgs = feed(ch)
+//@ let r0 = recvd(ch)
+//@ let c0 = gc("wrcalls", writer)
+//@ let w0 = gc("wr", writer)
+//@ modifies recv(ch), gc("wr", writer), gb("wr", writer), gc("wrcalls", writer), gb("wroff", writer)
+//@ ensures[C10] recvd(ch) == feedlen(ch) && gc("wrcalls", writer) - c0 == typedcnt(msgs, recvd(ch)) - typedcnt(msgs, r0)
+//@ ensures[C10] forall(k, r0, recvd(ch), msgs[k].MessageType != 0 - 1 ==> Wrote(gb("wr", writer), gb("wroff", writer), c0 + typedcnt(msgs, k) - typedcnt(msgs, r0), contents(msgs[k].RawData), offof(msgs[k].RawData), len(msgs[k].RawData)))
+//@ ensures[C10] gc("wr", writer) >= w0 && forall(j, 0, w0, gb("wr", writer)[j] == old(gb("wr", writer))[j])
+//@ loop 1
+//@ invariant[C10] ch != nil && recvd(ch) >= r0 && recvd(ch) <= feedlen(ch) && gc("wrcalls", writer) - c0 == typedcnt(msgs, recvd(ch)) - typedcnt(msgs, r0) && typedcnt(msgs, recvd(ch)) >= typedcnt(msgs, r0)
+//@ invariant[C10] forall(k, r0, recvd(ch), msgs[k].MessageType != 0 - 1 ==> typedcnt(msgs, k) >= typedcnt(msgs, r0) && typedcnt(msgs, k) < typedcnt(msgs, recvd(ch)) && Wrote(gb("wr", writer), gb("wroff", writer), c0 + typedcnt(msgs, k) - typedcnt(msgs, r0), contents(msgs[k].RawData), offof(msgs[k].RawData), len(msgs[k].RawData)) && gb("wroff", writer)[c0 + typedcnt(msgs, k) - typedcnt(msgs, r0)] >= w0 && gb("wroff", writer)[c0 + typedcnt(msgs, k) - typedcnt(msgs, r0)] + len(msgs[k].RawData) <= gc("wr", writer))
+//@ invariant[C10] gc("wr", writer) >= w0 && forall(j, 0, w0, gb("wr", writer)[j] == old(gb("wr", writer))[j])
+//@ decreases[C07,C10] feedlen(ch) - recvd(ch)
+
+// Readable log: one Write per delivered message.
+//@ func writeReadableMessages
+//@ requires[C07] ch != nil
+//@ let r0 = recvd(ch)
+//@ let c0 = gc("wrcalls", writer)
+//@ modifies recv(ch), gc("wr", writer), gb("wr", writer), gc("wrcalls", writer), gb("wroff", writer)
+//@ ensures[C10] recvd(ch) == feedlen(ch) && gc("wrcalls", writer) - c0 == recvd(ch) - r0
+//@ loop 1
+//@ invariant[C10] ch != nil && recvd(ch) >= r0 && recvd(ch) <= feedlen(ch) && gc("wrcalls", writer) - c0 == recvd(ch) - r0
+//@ decreases[C07,C10] feedlen(ch) - recvd(ch)
+
+// Wiring: the stdout writer (and, when configured, the readable log and the record
+// file) each consume their own channel; all channels are handed to the fan-out stage,
+// closed exactly once after the input is exhausted, and the writers are waited for.
+//@ func HandleMessages
+//@ requires[C07] config != nil
+//@ ensures[C10,C11] closed(messageChan)
+//@ loop 1
+//@ invariant[C10,C11] forall(k, 0, len(channels), channels[k] != nil && allocated(channels[k]) && (closed(channels[k]) == (k <= rangeindex)))
+//@ invariant[C10,C11] forall(i, 0, len(channels), forall(j, 0, len(channels), i != j ==> channels[i] != channels[j]))
+//@ invariant[C10,C11] len(channels) >= 1 && channels[0] == messageChan
